@@ -66,6 +66,13 @@ def cases(run: Run):
         # significances over the whole open interval: the usual ones, very strict ones (1 - alpha rounds to 1 below 1.1e-16) and lax ones
         alpha = rng.choice(ALPHAS_USUAL) if rng.random() < 0.6 else rng.choice(ALPHAS_EXTREME)
         c = {"kind": kind, "alpha": alpha, "h": gen_history(rng, run.n(25, 50))}
+        if rng.random() < 0.25 and len(c["h"]) >= 3:
+            # one wildly inconsistent observation (a mis-associated track: an innovation of a billion sigma) somewhere in the past; the steps after
+            # it are ordinary again and the statistic must be the documented sum over them once the outlier has left the window
+            j = rng.randint(0, len(c["h"]) - 2)
+            f = Fraction(2) ** rng.choice([28, 30, 32, 34])
+            c["h"][j]["nu"] = [x * f if x != 0 else f / 8 for x in c["h"][j]["nu"]]
+            c["outlier_at"] = j
         if kind == "sliding":
             c["w"] = rng.choice([1, 2, 3, 4, 4, 5, 8, 12])
         if kind == "fading":
